@@ -121,10 +121,11 @@ def twin_work(exes, start, n):
 
 def dl_work(exes, start, n):
     d = c10.work(exes, start, n, True, PID)
-    # C08 owns only the 'matrix is the closure of the assigned constraints' verdict; the rest is reported under C10
+    # C08 owns the 'matrix is the closure of the assigned constraints' verdict and explanations naming literals that are no longer assigned
+    # (state that was not restored); the rest is reported under C10
     keep = []
     for v in d["violations"]:
-        if v[0].endswith("/distance-mismatch"):
+        if v[0].endswith("/distance-mismatch") or v[0].endswith("/explanation-with-non-false-literal"):
             keep.append(v)
         else:
             d["counters"]["failures owned by C10"] = d["counters"].get("failures owned by C10", 0) + 1
